@@ -152,6 +152,20 @@ def gen_bad(rng, spec, nid):
     cands = [[nid + j, rng.randrange(-64, 65) / 8.0, [rng.randrange(-8, 9) / 8.0 for _ in range(nd)]] for j in range(n)]
     pos = rng.choice([0, n - 1, n // 2])
     desc = {"entry": entry, "n": n, "pos": pos, "cands": cands}
+    # non-finite values are written into the array LATE: with [warm] the very same array object, still holding finite numbers, is first
+    # passed to the same entry point of a scratch archive (callers refill preallocated evaluation buffers in place; a value seen to be
+    # finite once says nothing about the next call)
+    late = []
+    warm = rng.random() < 0.4
+
+    def poison(first_call):
+        if late and warm:
+            try:
+                first_call(make(dict(spec, decoy=False)))
+            except Exception:  # noqa   (the finite version may be invalid for other reasons; only its side effects on caches matter)
+                pass
+        for arr, where, val in late:
+            arr[where] = val
     if entry == "add":
         kind = rng.choice(ADD_KINDS)
         kw = au.batch_arrays(spec, cands)
@@ -178,7 +192,7 @@ def gen_bad(rng, spec, nid):
             kw["objective"] = kw["objective"][:-1] if n > 1 else np.concatenate([kw["objective"], kw["objective"]])
         elif kind == "obj_nonfinite":
             kw["objective"] = kw["objective"].copy()
-            kw["objective"][pos] = rng.choice(BAD_VALUES)
+            late.append((kw["objective"], pos, rng.choice(BAD_VALUES)))
         elif kind == "obj_none":
             kw["objective"] = None
         elif kind == "all_missing_objective":
@@ -191,7 +205,7 @@ def gen_bad(rng, spec, nid):
             kw["measures"] = kw["measures"][:-1] if n > 1 else np.concatenate([kw["measures"], kw["measures"]], axis=0)
         elif kind == "mea_nonfinite":
             kw["measures"] = kw["measures"].copy()
-            kw["measures"][pos, rng.randrange(nd)] = rng.choice(BAD_VALUES)
+            late.append((kw["measures"], (pos, rng.randrange(nd)), rng.choice(BAD_VALUES)))
         elif kind == "extra_missing":
             del kw[rng.choice(ex)]
         elif kind == "extra_unknown":
@@ -214,7 +228,8 @@ def gen_bad(rng, spec, nid):
             else:
                 kw[name] = np.array(["x"] * n)
         desc["kind"] = kind
-        desc["call"] = lambda a: a.add(**kw)
+        desc["warm"] = bool(late) and warm
+        desc["call"] = lambda a: (poison(lambda s: s.add(**kw)), a.add(**kw))[1]
     elif entry == "add_single":
         kind = rng.choice(SINGLE_KINDS)
         kw = au.single_args(spec, cands[0])
@@ -242,7 +257,7 @@ def gen_bad(rng, spec, nid):
             kw["measures"] = kw["measures"][None]
         elif kind == "mea_nonfinite":
             kw["measures"] = kw["measures"].copy()
-            kw["measures"][rng.randrange(nd)] = rng.choice(BAD_VALUES)
+            late.append((kw["measures"], rng.randrange(nd), rng.choice(BAD_VALUES)))
         elif kind == "extra_missing":
             del kw[rng.choice(ex)]
         elif kind == "extra_unknown":
@@ -254,7 +269,8 @@ def gen_bad(rng, spec, nid):
             name = rng.choice([e for e in ex if e != "eo"] or ["bogus"])
             kw[name] = np.array(["x", "y"]) if name == "ev" else "x"
         desc["kind"] = kind
-        desc["call"] = lambda a: a.add_single(**kw)
+        desc["warm"] = bool(late) and warm
+        desc["call"] = lambda a: (poison(lambda s: s.add_single(**kw)), a.add_single(**kw))[1]
     else:
         kind = rng.choice(QUERY_KINDS)
         single = entry.endswith("single")
@@ -269,13 +285,11 @@ def gen_bad(rng, spec, nid):
             q = np.concatenate([q, q[..., :1]], axis=-1)
         else:
             q = q.copy()
-            if single:
-                q[rng.randrange(nd)] = rng.choice(BAD_VALUES)
-            else:
-                q[pos, rng.randrange(nd)] = rng.choice(BAD_VALUES)
+            late.append((q, rng.randrange(nd) if single else (pos, rng.randrange(nd)), rng.choice(BAD_VALUES)))
         desc["kind"] = kind
-        desc["query"] = q.tolist()
-        desc["call"] = lambda a: getattr(a, entry)(q)
+        desc["warm"] = bool(late) and warm
+        desc["query"] = [q.tolist(), [[list(w[1]) if isinstance(w[1], tuple) else w[1], repr(w[2])] for w in late]]
+        desc["call"] = lambda a: (poison(lambda s: getattr(s, entry)(q)), getattr(a, entry)(q))[1]
     return desc
 
 
